@@ -29,6 +29,11 @@ ASSUMPTIONS = [
     "openpyxl (iter_rows(values_only=True), datetime.isoformat(), str()) and xlrd cell reading are parameters: the repo's shaping of the row lists is modelled",
     "ODS _extract_cell_value (float parsing) is a parameter of the ODS shaping model; its typed results are checked by the search oracle",
     "int() of text:c is modelled for plain ASCII decimal forms only",
+    "ODS: int() of number-columns-repeated / number-rows-repeated is a parameter (plain decimals generated); sheets are generated, replayed and "
+    "handed to the library only within a budget of 10^6 cells if fully expanded and repeat counts <= 2000 (checked before the sheet is built)",
+    "ODS: cells behind a collapsed run of more than 100 empty cells / rows are misplaced on the current code (open known finding "
+    "ods.empty-repeat-shifts-cells; the earlier repair f0cc6e0 was withdrawn by d8d5030): the theorem is partial (NoWideGap), the oracle "
+    "classifies a failing sheet as that finding only when it has such a gap in front of data AND the result is exactly the collapsed table",
     "PPTX reading order on a slide (sort by position) and the ODP frame loop are tied by correspondence only",
     "RTF table extraction (regex heuristics) is not modelled: oracle only",
 ]
@@ -942,21 +947,75 @@ def gen_ods_value(rng):
     return ("time", "PT01H02M03S")
 
 
-def gen_ods_sheet(rng):
-    rows = []
-    for _ in range(rng.randint(1, 6)):
-        cells = []
-        for _ in range(rng.randint(0, 5)):
-            rep = rng.choice([1, 1, 1, 1, 2, 3, 100, 101, 150, 1000])
-            v = gen_ods_value(rng)
-            if v is not None and rep > 3:
-                rep = rng.choice([1, 2, 3])
-            cells.append((rep, v))
-        rrep = rng.choice([1, 1, 1, 1, 2, 3, 100, 101, 200])
-        if rrep > 3 and any(v is not None for _, v in cells):
-            rrep = rng.choice([1, 2])
-        rows.append((rrep, cells))
-    return rows
+ODS_CELL_BUDGET = 10 ** 6      # no generated / replayed sheet may expand to more cells than this, whatever the library does
+ODS_CAP = 100                  # the library's cap on empty runs (open finding ods.empty-repeat-shifts-cells)
+
+
+def ods_cells_if_expanded(rows):
+    """upper bound of the cells a full expansion of the run-length encoded sheet would allocate"""
+    width = max((sum(rep for rep, _ in cells) for _, cells in rows), default=0)
+    return width * sum(rrep for rrep, _ in rows)
+
+
+def ods_budget_ok(rows):
+    return ods_cells_if_expanded(rows) <= ODS_CELL_BUDGET and all(rep <= 2000 for _, cells in rows for rep, _ in cells) \
+        and all(rrep <= 2000 for rrep, _ in rows)
+
+
+def gen_ods_sheet(rng, wide_gap_before_data=None, zeros=False):
+    """wide_gap_before_data: None = anything, False = capped runs only where nothing follows them;
+    zeros: a few repeat counts of 0 (degenerate input: model / implementation correspondence only)"""
+    while True:
+        rows = []
+        for _ in range(rng.randint(1, 6)):
+            cells = []
+            for _ in range(rng.randint(0, 5)):
+                rep = rng.choice([1, 1, 1, 1, 2, 3, 99, 100, 101, 150, 300])
+                v = gen_ods_value(rng)
+                if v is not None and rep > 3:
+                    rep = rng.choice([1, 2, 3, 3, 3, 100, 101, 120])     # a value repeated past the cap is not collapsed
+                if zeros and rng.random() < 0.04:
+                    rep = 0
+                cells.append((rep, v))
+            rrep = rng.choice([1, 1, 1, 1, 2, 3, 99, 100, 101, 150])
+            if rrep > 3 and any(v is not None for _, v in cells):
+                rrep = rng.choice([1, 2, 2, 2, 101, 110])
+            if zeros and rng.random() < 0.04:
+                rrep = 0
+            rows.append((rrep, cells))
+        if not ods_budget_ok(rows):
+            continue
+        if wide_gap_before_data is False and ods_wide_gap(rows):
+            continue
+        return rows
+
+
+def ods_wide_gap(rows):
+    """a run of more than ODS_CAP empty cells (one table-cell element) with a value behind it in its row, or one
+    table-row element without data repeated more than ODS_CAP times with a row holding data below it"""
+    def has(cells):
+        return any(v is not None and rep > 0 for rep, v in cells)
+    for rrep, cells in rows:
+        if rrep == 0:       # contributes no row, whatever its cells (as Ods.noGapRows)
+            continue
+        for i, (rep, v) in enumerate(cells):
+            if v is None and rep > ODS_CAP and has(cells[i + 1:]):
+                return True
+    for i, (rrep, cells) in enumerate(rows):
+        if rrep > ODS_CAP and not has(cells) and any(has(c) and rr > 0 for rr, c in rows[i + 1:]):
+            return True
+    return False
+
+
+def ods_capped_rows(rows):
+    """the mechanism of the open finding, on the run-length encoding: every capped run counts once"""
+    def has(cells):
+        return any(v is not None and rep > 0 for rep, v in cells)
+    out = []
+    for rrep, cells in rows:
+        cc = [((1 if (v is None and rep > ODS_CAP) else rep), v) for rep, v in cells]
+        out.append(((1 if (rrep > ODS_CAP and not has(cells)) else rrep), cc))
+    return out
 
 
 def ods_cell_elem(rep, v):
@@ -988,7 +1047,16 @@ def ods_cell_elem(rep, v):
     return e
 
 
+class OdsBudgetExceeded(ValueError):
+    """the sheet is never built, never handed to the library"""
+
+
 def build_ods(sheets) -> bytes:
+    # checked BEFORE anything is built or handed to the library, whatever the library does with repeats
+    for rows in sheets:
+        if not ods_budget_ok(rows):
+            raise OdsBudgetExceeded("ODS case exceeds the harness cell budget: %d cells if expanded (limit %d), repeat counts above 2000 refused"
+                                    % (ods_cells_if_expanded(rows), ODS_CELL_BUDGET))
     ss = ET.Element(c13b.OFFICE + "spreadsheet")
     for i, rows in enumerate(sheets):
         t = ET.SubElement(ss, c13b.TABLE + "table", {c13b.TABLE + "name": f"S{i}"})
@@ -1039,8 +1107,8 @@ def _corr_ods(ctx):
     broken = []
     om = _mod("open_office.ods_extractor")
     reqs, meta = [], []
-    for _ in range(ctx.n(30, 500)):
-        sheets = [gen_ods_sheet(rng) for _ in range(rng.randint(1, 2))]
+    for _ in range(ctx.n(80, 800)):
+        sheets = [gen_ods_sheet(rng, zeros=rng.random() < 0.3) for _ in range(rng.randint(1, 2))]
         real = _read("ods", build_ods(sheets))
         for i, rows in enumerate(sheets):
             model_rows = [[rrep, [[rep, val_json(om._extract_cell_value(ods_cell_elem(rep, v))[0])] for rep, v in cells]] for rrep, cells in rows]
@@ -1051,14 +1119,23 @@ def _corr_ods(ctx):
     for (rows, res), o in zip(meta, outs):
         ctx.case(("ods", repr(rows)), nontrivial=any(v is not None for _, cells in rows for _, v in cells))
         big = any(rep > 100 for _, cells in rows for rep, _ in cells) or any(rr > 100 for rr, _ in rows)
-        ctx.count("ods/" + ("wide-gap" if big else "plain"))
+        ctx.count("ods/" + ("wide-gap-before-data" if ods_wide_gap(rows) else "capped-trailing-run" if big else "plain"))
         got = res if isinstance(res, str) else vgrid_json(res["table"])
         case = {"fmt": "ods", "rows": _enc_ods(rows)}
         msgs = []
         if got != o.get("data"):
             msgs.append(("c13.ods", f"impl={_short(got)} model={_short(o.get('data'))}"))
+        # the hypothesis of C13_ods_cells_partial (Lean, with the caps read from the source) is the oracle's
+        # classifier of the open finding
+        if o.get("nogap") is not (not ods_wide_gap(rows)):
+            msgs.append(("c13.ods-nogap", f"Lean NoWideGap={o.get('nogap')} harness ods_wide_gap={ods_wide_gap(rows)}"))
         if not isinstance(res, str):
+            # a wide gap in front of data is the open finding ods.empty-repeat-shifts-cells: there the capped
+            # expansion is what the library is known to return (replayed in known_witnesses); the exact table
+            # is right everywhere
             truth = ods_truth(rows)
+            if ods_wide_gap(rows) and _canon_grid(res["table"]) != _canon_grid(truth):
+                truth = ods_truth(ods_capped_rows(rows))
             if _canon_grid(res["table"]) != _canon_grid(truth):
                 msgs.append(("truth:ods", f"impl={_short(res['table'])} ground truth={_short(truth)}"))
             if res["dim"] != (len(truth), max((len(r) for r in truth), default=0)):
@@ -1329,7 +1406,10 @@ def oracle(fmt, case):
         return _check_tables(fmt, res, truth, case, known=[("xlsx.single-value-first-row-dropped", dropped)])
     if fmt == "ods":
         sheets = [_dec_ods(r) for r in case["sheets"]]
-        return _check_tables(fmt, _read("ods", build_ods(sheets)), [ods_truth(r) for r in sheets], case)
+        known = []
+        if any(ods_wide_gap(r) for r in sheets):
+            known = [("ods.empty-repeat-shifts-cells", [ods_truth(ods_capped_rows(r)) for r in sheets])]
+        return _check_tables(fmt, _read("ods", build_ods(sheets)), [ods_truth(r) for r in sheets], case, known=known)
     if fmt == "xls":
         g = _dec_xls(case["grid"])
         sheets, book = _xls_read([g])
@@ -1420,7 +1500,7 @@ def gen_case(rng, fmt, known_shapes=False):
             sheets.append(g)
         return {"sheets": _enc_sheets(sheets)}
     if fmt == "ods":
-        return {"sheets": [_enc_ods(gen_ods_sheet(rng)) for _ in range(rng.randint(1, 2))]}
+        return {"sheets": [_enc_ods(gen_ods_sheet(rng, wide_gap_before_data=(None if known_shapes else False))) for _ in range(rng.randint(1, 2))]}
     if fmt == "xls":
         return {"grid": _enc_xls(gen_xls_sheet(rng, distinct=not known_shapes))}
     if fmt == "rtf":
@@ -1461,14 +1541,34 @@ def search(ctx, broken):
                 found.append(v)
 
     open_keys = _open_keys()
-    for b in broken:
+
+    def _in_known_region(b):
+        # ODS cases inside the region of the open finding (or with degenerate 0 repeats) are tried last, so that the
+        # reported failing input is, where one exists, a sheet on which the unchanged library is right
+        c = b.case or {}
+        if c.get("fmt") == "ods" and "rows" in c:
+            rows = _dec_ods(c["rows"])
+            return int(ods_wide_gap(rows) or any(rr == 0 for rr, _ in rows) or any(rep == 0 for _, cells in rows for rep, _ in cells))
+        return 0
+
+    murky = set()       # keys of violations seen only on inputs inside the region of the open ODS finding
+    for b in sorted(broken, key=_in_known_region):
         fc = _case_from_broken(b)
         if fc:
             try:
-                add(oracle(*fc))
+                vs = oracle(*fc)
             except Exception:  # noqa: BLE001
-                pass
+                continue
+            if _in_known_region(b):
+                murky |= {v.key for v in vs if v.key not in keys and v.key not in open_keys}
+            add(vs)
     if any(k not in open_keys for k in keys):
+        if murky and all(k in murky or k in open_keys for k in keys):
+            # prefer a failing sheet on which the unchanged library is right, if the generator finds one quickly
+            for _ in range(ctx.n(300, 1500)):
+                vs = [v for v in oracle("ods", gen_case(ctx.rng, "ods")) if v.key not in open_keys]
+                if vs:
+                    return vs[:1] + [v for v in found if v.key != vs[0].key]
         return found
     # formats named by the broken obligations first, then all
     named = [f for f in FORMATS if any(f in (b.name or "") or (b.case or {}).get("fmt", "").startswith(f) for b in broken)]
@@ -1499,7 +1599,13 @@ def replay(ctx, payload):
     rep = payload.get("replay", {})
     if "fmt" not in rep:
         return False, "replay names a broken obligation, not an input: " + payload.get("what", "")
-    vs = oracle(rep["fmt"], rep["case"])
+    try:
+        vs = oracle(rep["fmt"], rep["case"])
+    except OdsBudgetExceeded as e:
+        return False, f"not replayed (nothing was built or handed to the library): {e}"
+    open_keys = _open_keys()
+    if vs and all(v.key in open_keys for v in vs):
+        return False, "fails as the open known finding " + ", ".join(sorted({v.key for v in vs})) + " only: " + "; ".join(v.what for v in vs)
     return (not vs), "; ".join(v.what for v in vs) or "property holds on the recorded input"
 
 
@@ -1515,6 +1621,7 @@ WITNESSES = {
     "xlsx.single-value-first-row-dropped": ("xlsx", {"sheets": [[["Title", None], [1, 2]]]}),
     "xls.duplicate-header-collision": ("xls", {"grid": [[[1, "a"], [1, "a"]], [[2, 1.0], [2, 2.0]]]}),
     "xls.header-only-sheet-empty": ("xls", {"grid": [[[1, "a"], [1, "b"]]]}),
+    "ods.empty-repeat-shifts-cells": ("ods", {"sheets": [[[1, [[1, "a"], [150, None], [1, "b"]]], [120, [[152, None]]], [1, [[1, "c"]]]]]}),
     "rtf.adjacent-tables-merged": ("rtf", {"blocks": [["p", "before"], ["t", [[["a"], ["b"]], [["c"], ["d"]]]], ["p", "between"],
                                                         ["t", [[["e"]], [["f"]]]], ["p", "after"]]}),
 }
